@@ -40,7 +40,7 @@ func corpus() [][]sh.Op {
 		// WITNESS partial-create: AddWorkload of an existing id on another node
 		{addPod, addN0, {Kind: "AddNode", Nodes: []sh.NodeArg{node("n1", "p0", nil, "")}}, {Kind: "AddWorkload", W: wl("w0", "a0_e0_s", "n0")},
 			{Kind: "AddWorkload", W: wl("w0", "a0_e0_s", "n1")}, {Kind: "ListNodeWorkloads", N: "n1"}},
-		// WITNESS removepod-missing
+		// removing a missing pod (fixed: 319d79b)
 		{{Kind: "RemovePod", P: "p0"}},
 		// WITNESS decr-missing-processing
 		{addPod, addN0, {Kind: "AddWorkload", W: wl("w0", "a0_e0_s", "n0"), Pr: pr}, {Kind: "GetWorkload", N: "w0"}},
@@ -49,7 +49,7 @@ func corpus() [][]sh.Op {
 			{Kind: "AddWorkload", W: &sh.WData{ID: "w0", Name: "a0_e0_s", Node: "n0", Labels: sh.Labels{"l": "y"}}, Pr: pr}, {Kind: "GetWorkload", N: "w0"}},
 		// WITNESS nodestatus-missing-node
 		{{Kind: "SetNodeStatus", N: "n0", P: "p0", TTL: 3}, {Kind: "GetNodeStatus", N: "n0"}},
-		// WITNESS wstatus0-missing-workload
+		// status without ttl for a missing workload (fixed: 29ab9b1)
 		{{Kind: "SetWorkloadStatus", St: &sh.WStat{ID: "w0"}, A: "a0", E: "e0", N: "n0", TTL: 0}},
 		// stale index after RemoveNode with another pod name, UpdateNodes creating a node, bypass / availability
 		{addPod, addPod1, addN0, {Kind: "RemoveNode", N: "n0", P: "p1"}, {Kind: "GetNodesByPod", P: "p0", All: true}, {Kind: "GetNode", N: "n0"},
